@@ -151,8 +151,8 @@ def spec_scale(spec):
     """the length every comparison is RELATIVE to: the size of the shape plus 1e-3 of its distance from
     the origin (binary64 cancellation in `pos + offset` is proportional to |pos|); TOL * spec_scale =
     1e-9 * size + 1e-12 * |pos|.  No absolute floor: inputs scaled by 1e-12 .. 1e12 are compared alike."""
-    if spec['kind'] == 'wrap':
-        return shape_size(spec['inner']) + 1e-3 * abs(cx(spec['pos']))
+    if spec['kind'] == 'wrap':     # the wrapped cell's own position enters too (a CellSquare stores absolute corners)
+        return shape_size(spec['inner']) + 1e-3 * (abs(cx(spec['pos'])) + abs(spec_pos(spec['inner'])))
     return shape_size(spec) + 1e-3 * abs(spec_pos(spec))
 
 
@@ -576,6 +576,8 @@ def o_cluster(case):
     if ctype in ('simple', 'square'):
         for i in range(n):
             for j in range(i + 1, n):
+                if case.get('light') and D[i, j] > 1.6 * touch:      # large grids: only cells that could touch
+                    continue
                 if not convex_separated(polys[i], polys[j], tol):
                     return cls + 'overlap', 'cells %d and %d have no separating line' % (i + 1, j + 1)
     else:
@@ -854,6 +856,15 @@ def hist_build(case, check=None):
         elif t == 'D':
             obj.delete_all_users()
             tracked = []
+        elif t == 'N':      # a batch of queries / representations / plots: nothing may change
+            target = wrap if wrap is not None else obj
+            before = [geom_observables(obj)] + ([geom_observables(wrap)] if wrap is not None else [])
+            for qname, fn in query_batch(target, obj, op[1]):
+                fn()
+                after = [geom_observables(obj)] + ([geom_observables(wrap)] if wrap is not None else [])
+                if after != before and check is not None:
+                    check('nonmutating:' + qname, 'calling %s changed the object' % qname)
+                    break
         elif t == 'X':
             before = observables(obj, wrap)
             got, argchange = rejected_call(cell, obj, wrap, op, size0)
@@ -872,6 +883,27 @@ def hist_build(case, check=None):
             d = complex(obj.pos) - pos_before
             tracked = [u + d for u in tracked]
     return obj, wrap, tracked
+
+
+def query_batch(target, obj, with_plot):
+    """calls that are not documented as mutators"""
+    out = [('vertices', lambda: target.vertices), ('_get_vertex_positions', lambda: target._get_vertex_positions()),
+           ('is_point_inside_shape', lambda: target.is_point_inside_shape(complex(target.pos))),
+           ('get_border_point', lambda: target.get_border_point(21.0, 0.5)), ('calc_dist', lambda: target.calc_dist(obj)),
+           ('repr', lambda: repr(target)), ('users', lambda: list(getattr(target, 'users', []))),
+           ('num_users', lambda: getattr(target, 'num_users', 0))]
+    if with_plot:
+        def plot():
+            import matplotlib
+            matplotlib.use('Agg')
+            import matplotlib.pyplot as plt
+            fig, ax = plt.subplots()
+            try:
+                target.plot(ax)
+            finally:
+                plt.close(fig)
+        out.append(('plot', plot))
+    return out
 
 
 def inradius(spec):
@@ -2479,7 +2511,7 @@ def gen_history(rng, kind=None, nq=6, scale=None, must=()):
     _, R0, _ = hist_initial(case)
     R = R0
     size0 = shape_size(init)
-    menu = ['P', 'M', 'Q', 'R', 'R', 'T'] + (['W'] if wrapped else [])
+    menu = ['P', 'M', 'Q', 'R', 'R', 'T', 'N'] + (['W'] if wrapped else [])
     if base != 'rect':
         menu += ['U', 'B', 'D', 'X']
     if base == 'sec3':
@@ -2508,6 +2540,8 @@ def gen_history(rng, kind=None, nq=6, scale=None, must=()):
             case['ops'].append(['S', rng.below(3), gen_draws(rng, 40)])
         elif t == 'D':
             case['ops'].append(['D'])
+        elif t == 'N':
+            case['ops'].append(['N', rng.chance(0.15)])
         elif t == 'X':
             what = rng.choice(['add_user_outside', 'add_user_outside_relative', 'add_user_not_a_node', 'border_ratio',
                                'border_ratio_list'] + (['sector_index'] if base == 'sec3' else [])
@@ -2548,6 +2582,8 @@ def hist_line(case):
             toks.append('Q:%s:%s' % (f(op[1]), f(op[2])))
         elif t == 'D':
             toks.append('D')
+        elif t == 'N':
+            continue            # queries are not steps of the model: its functions cannot change a state
         elif t == 'B':
             toks.append('B:%s:%s' % (f(op[1]), f(op[2])))
         elif t == 'U':
@@ -2585,6 +2621,8 @@ def hist_branches(ctx, case):
             ctx.branch('R4:rejected:' + op[1])
         if op[0] in ('M', 'Q'):
             ctx.branch('R7:move-helper')
+        if op[0] == 'N':
+            ctx.branch('R11:queries-in-history')
     branch_scale(ctx, case['init'])
 
 
@@ -2592,7 +2630,7 @@ def fixed_histories(rng):
     """every kind through a shrinking and a growing radius, each move helper, and each rejected call"""
     out = []
     for kind in ('hex', 'sec3', 'square', 'rect', 'wrap:hex', 'wrap:sec3', 'wrap:square'):
-        for must in (['R'], ['M'], ['Q'], ['M', 'U'], ['Q', 'U', 'R'], ['P', 'B']):
+        for must in (['R'], ['M'], ['Q'], ['M', 'U'], ['Q', 'U', 'R'], ['P', 'B'], ['R', 'N', 'T']):
             if kind == 'rect' and ('U' in must or 'B' in must):
                 continue
             c = gen_history(rng, kind, must=must)
@@ -3348,6 +3386,729 @@ def corr_placement(ctx, drv, ncases):
             ctx.branch('placement-corr:per-cell-ratio')
 
 
+# ------------------------------------------------------------------ R8 - R14
+def _guard(fn, cls_of):
+    """library exceptions inside an oracle are failing inputs with an input-derived class"""
+    def wrapped(case):
+        w = quiet()
+        try:
+            return fn(case)
+        except StreamEnd:
+            return None
+        except Exception as e:
+            return cls_of(case) + ':raises:' + type(e).__name__, repr(e)[:200]
+        finally:
+            w.__exit__(None, None, None)
+    return wrapped
+
+
+def same_pts(a, b, tol):
+    return len(a) == len(b) and all(abs(x - y) <= tol for x, y in zip(a, b))
+
+
+def geom_observables(obj):
+    """attributes and results of a cell / shape that no query may change"""
+    out = observables(obj)
+    for name in ('fill_face_bool', 'fill_color', 'fill_opacity', 'id', 'cell_id', 'marker_color', 'plot_marker'):
+        if hasattr(obj, name):
+            out.append((name, getattr(obj, name)))
+    return out
+
+
+def cluster_observables(cl):
+    out = [complex(cl.pos), float(cl.radius), float(cl.external_radius), complex(cl.rotation).real, cl.num_cells, cl.num_users,
+           float(cl.cell_radius), float(cl.cell_height), cl.cluster_id]
+    for c in cl:
+        out.append(observables(c))
+    out.append(tuple(sorted(cl._wrapped_cells)))
+    return out
+
+
+def o_forms(case):
+    """R8: positional / keyword / default / explicit-default forms of every entry point agree, scalar = 0-d =
+    length-1 array, constructor path = setter path, documented-equivalent entry points agree"""
+    shapes, cell, pp = _mods()
+    what = case['what']
+    cls = 'forms:' + what
+    if what == 'get_border_point':
+        spec = case['spec']
+        tol = TOL * spec_scale(spec)
+        sh = make_shape(spec)
+        for a, r in case['angles']:
+            if r == 1.0:
+                vals = [sh.get_border_point(a), sh.get_border_point(a, None), sh.get_border_point(a, 1.0), sh.get_border_point(angle=a),
+                        sh.get_border_point(angle=a, ratio=None), sh.get_border_point(a, ratio=1.0)]
+            else:
+                vals = [sh.get_border_point(a, r), sh.get_border_point(a, ratio=r), sh.get_border_point(angle=a, ratio=r),
+                        sh.get_border_point(ratio=r, angle=a)]
+            if any(abs(complex(v) - complex(vals[0])) > tol for v in vals):
+                return cls + ':' + base_kind(spec), 'angle %r ratio %r: the argument forms give %s' % (a, r, [complex(v) for v in vals])
+        return None
+    if what == 'constructor':
+        spec = case['spec']
+        k = spec['kind']
+        tol = TOL * spec_scale(spec)
+        pos, rot = cx(spec['pos']), spec['rot']
+        size = spec['side'] if k == 'square' else spec['R']
+        C = {'hex': cell.Cell, 'sec3': cell.Cell3Sec, 'square': cell.CellSquare, 'hexshape': shapes.Hexagon}[k]
+        sizekw = 'side_length' if k == 'square' else 'radius'
+        objs = [C(pos, size, rotation=rot), C(**{'pos': pos, sizekw: size, 'rotation': rot}), C(rotation=rot, **{sizekw: size, 'pos': pos})]
+        if k != 'hexshape':
+            objs += [C(pos, size, None, rot), C(pos, size, cell_id=None, rotation=rot)]
+        else:
+            objs.append(C(pos, size, rot))
+        # the setter path: a default cell configured afterwards
+        o = C(0j, 1.0)
+        o.rotation = rot
+        o.pos = pos
+        if k == 'square':
+            o.radius = math.sqrt(2.0) * size / 2.0
+        else:
+            o.radius = size
+        objs.append(o)
+        o2 = C(pos, size)          # rotation left at its default, then replaced; replaced again by itself
+        if complex(o2.rotation) != 0:
+            return cls + ':' + k + ':default', 'default rotation is %r' % (o2.rotation,)
+        o2.rotation = rot
+        o2.rotation = rot
+        objs.append(o2)
+        ref = [complex(v) for v in np.asarray(objs[0].vertices)]
+        for i, o_ in enumerate(objs[1:]):
+            if not same_pts([complex(v) for v in np.asarray(o_.vertices)], ref, tol) or abs(float(o_.radius) - float(objs[0].radius)) > 1e-9 * float(objs[0].radius):
+                return cls + ':' + k, 'form %d gives vertices %s, the positional constructor %s' % (i + 1, np.asarray(o_.vertices)[:2], ref[:2])
+            if k == 'sec3':
+                for s1, s0 in zip((o_._sec1, o_._sec2, o_._sec3), (objs[0]._sec1, objs[0]._sec2, objs[0]._sec3)):
+                    if not same_pts([complex(v) for v in np.asarray(s1.vertices)], [complex(v) for v in np.asarray(s0.vertices)], tol):
+                        return cls + ':sec3:sectors', 'form %d has other sector cells than the positional constructor' % (i + 1)
+        if k != 'hexshape' and (objs[0].id is not None or C(pos, size, 7, rot).id != 7 or C(pos, size, cell_id='a').id != 'a'):
+            return cls + ':' + k + ':cell_id', 'cell_id is not stored as given'
+        return None
+    if what == 'cluster_constructor':
+        n, R, rot, ctype = case['n'], case['R'], case['rot'], case['type']
+        pos = cx(case['pos'])
+        tol = TOL * (6 * R + 1e-3 * abs(pos))
+        a = cell.Cluster(R, n, pos, None, ctype, rot)
+        forms = [cell.Cluster(cell_radius=R, num_cells=n, pos=pos, cluster_id=None, cell_type=ctype, rotation=rot),
+                 cell.Cluster(R, n, pos, cell_type=ctype, rotation=rot), cell.Cluster(rotation=rot, cell_type=ctype, pos=pos, num_cells=n, cell_radius=R)]
+        ca = [complex(c.pos) for c in a]
+        for i, b in enumerate(forms):
+            if not same_pts([complex(c.pos) for c in b], ca, tol) or any(
+                    not same_pts([complex(v) for v in np.asarray(x.vertices)], [complex(v) for v in np.asarray(y.vertices)], tol) for x, y in zip(a, b)):
+                return cls + ':' + ctype, 'keyword form %d differs from the positional constructor' % (i + 1)
+        if ctype == 'simple':      # defaults: pos 0, simple cells, rotation 0
+            d = cell.Cluster(R, n)
+            e = cell.Cluster(R, n, 0 + 0j, None, 'simple', 0.0)
+            if not same_pts([complex(c.pos) for c in d], [complex(c.pos) for c in e], tol) or d.cluster_id is not None:
+                return cls + ':defaults', 'the defaults are not pos=0, simple, rotation=0'
+        return None
+    if what == 'add_user':
+        spec = case['spec']
+        tol = TOL * spec_scale(spec)
+        a, b, c_, d = (make_shape(spec) for _ in range(4))
+        rel = complex(*case['rel'])
+        scale = spec['side'] / 2 if spec['kind'] == 'square' else a.radius
+        absolute = rel * scale + complex(a.pos)
+        res = []
+        for obj, fn in ((a, lambda o: o.add_user(cell.Node(rel))), (b, lambda o: o.add_user(cell.Node(rel), True)),
+                        (c_, lambda o: o.add_user(new_user=cell.Node(rel), relative_pos_bool=True)),
+                        (d, lambda o: o.add_user(cell.Node(absolute), relative_pos_bool=False))):
+            try:
+                fn(obj)
+                res.append(complex(obj.users[0].pos))
+            except ValueError:
+                res.append(None)
+        if any((r is None) != (res[0] is None) or (r is not None and abs(r - res[0]) > tol) for r in res):
+            return cls + ':' + spec['kind'], 'relative %r: the forms / the absolute twin give %s' % (rel, res)
+        return None
+    if what == 'single_vs_many':
+        spec = case['spec']
+        tol = 1e-12 * spec_scale(spec) * 1e3
+        n_, col, rat = case['num'], case['color'], case['ratio']
+        a, b = make_shape(spec), make_shape(spec)
+        if spec['kind'] == 'sec3' and case.get('sector') is not None:
+            k = case['sector']
+            with scripted_random(case['draws']):
+                a.add_random_users_in_sector(n_, k + 1, col, rat)
+            with scripted_random(case['draws']):
+                for _ in range(n_):
+                    b.add_random_user_in_sector(k + 1, col, rat)
+        else:
+            with scripted_random(case['draws']):
+                a.add_random_users(n_, col, rat)
+            with scripted_random(case['draws']):
+                for _ in range(n_):
+                    b.add_random_user(col, rat)
+        pa, pb = [complex(u.pos) for u in a.users], [complex(u.pos) for u in b.users]
+        if not same_pts(pa, pb, tol) or [u.marker_color for u in a.users] != [u.marker_color for u in b.users]:
+            return cls + ':random', 'n users at once %s, one by one %s' % (pa[:2], pb[:2])
+        c_, d, e = make_shape(spec), make_shape(spec), make_shape(spec)
+        angs = [x for x, _ in case['angles']]
+        rats = [float(y) for _, y in case['angles'] if True]
+        c_.add_border_user(angs, rats, col)
+        for x, y in zip(angs, rats):
+            d.add_border_user(x, y, col)
+        for x, y in zip(angs, rats):
+            e.add_border_user(angles=[x], ratio=[y], user_color=[col] if col is not None else None)
+        want = [complex(c_.get_border_point(x, (1 - 1e-15) if y == 1.0 else y)) for x, y in zip(angs, rats)]
+        for o_ in (c_, d, e):
+            if not same_pts([complex(u.pos) for u in o_.users], want, TOL * spec_scale(spec)):
+                return cls + ':border', 'border users %s, get_border_point gives %s' % ([complex(u.pos) for u in o_.users][:2], want[:2])
+        return None
+    if what == 'scalar_0d_len1':
+        n, R, ctype = case['n'], case['R'], case['type']
+        cid, num = case['id'], case['num']
+        res = {}
+        for form, arg in (('scalar', cid), ('0-d', np.array(cid)), ('len-1', np.array([cid])), ('list', [cid])):
+            cl = cell.Cluster(R, n, cell_type=ctype)
+            with scripted_random(case['draws']):
+                cl.add_random_users(arg, num, None, case['ratio'])
+            cl.add_border_users(arg, 30.0, 0.5)
+            res[form] = [[complex(u.pos) for u in c.users] for c in cl]
+            cl.delete_all_users(arg)
+            if cl.num_users != 0:
+                return cls + ':delete_all_users:' + form, 'users left after delete_all_users(%r)' % (arg,)
+        for form in res:
+            if any(not same_pts(x, y, 1e-9 * R) for x, y in zip(res[form], res['scalar'])) or [len(x) for x in res[form]] != [len(x) for x in res['scalar']]:
+                return cls + ':cell_ids:' + form, 'cell_ids given as %s differs from the scalar' % form
+        c0 = cell.Cell(0j, R)
+        for form, arg in (('scalar', 40.0), ('0-d', np.array(40.0)), ('len-1', np.array([40.0])), ('list', [40.0])):
+            c1 = cell.Cell(0j, R)
+            c1.add_border_user(arg, 0.5)
+            c0.add_border_user(40.0, 0.5)
+            if abs(complex(c1.users[0].pos) - complex(c0.users[0].pos)) > 1e-12 * R:
+                return cls + ':angles:' + form, 'angle given as %s differs' % form
+        for form, arg in (('0-d', np.array(num)),):
+            cl = cell.Cluster(R, n, cell_type=ctype)
+            with scripted_random(case['draws']):
+                cl.add_random_users(cid, arg)
+            if cl.get_cell_by_id(cid).num_users != num:
+                return cls + ':num_users:' + form, '%d users for num_users=%r' % (cl.get_cell_by_id(cid).num_users, arg)
+        return None
+    if what == 'pointprocess':
+        n, rmax, w, h = case['n'], case['rmax'], case['w'], case['h']
+        with scripted_random(case['draws']):
+            a = pp.generate_random_points_in_circle(n, rmax)
+        with scripted_random(case['draws']):
+            b = pp.generate_random_points_in_circle(num_points=n, max_radius=rmax, min_radius=0.0)
+        with scripted_random(case['draws']):
+            c_ = pp.generate_random_points_in_circle(n, rmax, 0.0)
+        with scripted_random(case['draws']):
+            d = pp.generate_random_points_in_rectangle(n, w, h)
+        with scripted_random(case['draws']):
+            e = pp.generate_random_points_in_rectangle(height=h, width=w, num_points=n)
+        if not (np.array_equal(a, b) and np.array_equal(a, c_) and np.array_equal(d, e)):
+            return cls, 'positional / keyword / default forms differ'
+        return None
+    raise KeyError(what)
+
+
+def o_index(case):
+    """R9: index and count arguments of every integer type, 0-d arrays, values above 256"""
+    shapes, cell, pp = _mods()
+    what, t = case['what'], case['type']
+
+    def conv(v):
+        if t == '0-d':
+            return np.array(v)
+        if t == 'intp':
+            return np.intp(v)
+        if t == 'bool':
+            return bool(v)
+        return cast(float(v), t)
+
+    cls = 'index:%s:%s' % (what, t)
+    if what == 'sector':
+        c1, c0 = cell.Cell3Sec(0j, case['R'], rotation=case['rot']), cell.Cell3Sec(0j, case['R'], rotation=case['rot'])
+        k = case['sector']
+        with scripted_random(case['draws']):
+            c0.add_random_users_in_sector(case['num'], k + 1, None, 0.3)
+        with scripted_random(case['draws']):
+            c1.add_random_users_in_sector(conv(case['num']) if case.get('typed_num') else case['num'], conv(k + 1), None, 0.3)
+        if not same_pts([complex(u.pos) for u in c1.users], [complex(u.pos) for u in c0.users], 1e-12 * case['R']):
+            return cls, 'sector %r: users %s, python int gives %s' % (conv(k + 1), [u.pos for u in c1.users][:2], [u.pos for u in c0.users][:2])
+        return None
+    if what in ('cell_id', 'num_users'):
+        n, ctype, R = case['n'], case['type_c'], case['R']
+        cid, num = case['id'], case['num']
+        a, b = cell.Cluster(R, n, cell_type=ctype), cell.Cluster(R, n, cell_type=ctype)
+        with scripted_random(case['draws']):
+            b.add_random_users(cid, num, None, 0.2)
+        b.add_border_users(cid, 45.0, 0.5)
+        with scripted_random(case['draws']):
+            a.add_random_users(conv(cid) if what == 'cell_id' else cid, conv(num) if what == 'num_users' else num, None, 0.2)
+        a.add_border_users(conv(cid) if what == 'cell_id' else cid, 45.0, 0.5)
+        ga = a.get_cell_by_id(conv(cid) if what == 'cell_id' else cid)
+        if ga.id != cid:
+            return cls + ':get_cell_by_id', 'get_cell_by_id(%r) returned cell %r' % (conv(cid), ga.id)
+        for x, y in zip(a, b):
+            if not same_pts([complex(u.pos) for u in x.users], [complex(u.pos) for u in y.users], 1e-12 * (R + abs(complex(x.pos)))):
+                return cls + (':id>256' if cid > 256 else ''), 'cell %s: users %s, with python ints %s' % (
+                    x.id, [u.pos for u in x.users][:2], [u.pos for u in y.users][:2])
+        a.delete_all_users(conv(cid) if what == 'cell_id' else cid)
+        if a.get_cell_by_id(cid).num_users != 0 or a.num_users != 0:
+            return cls + ':delete_all_users', 'users left after deleting cell %r' % cid
+        return None
+    if what == 'num_points':
+        with scripted_random(case['draws']):
+            a = pp.generate_random_points_in_circle(conv(case['n']), 2.0, 1.0)
+        with scripted_random(case['draws']):
+            b = pp.generate_random_points_in_circle(case['n'], 2.0, 1.0)
+        if a.shape != b.shape or not np.array_equal(a, b):
+            return cls, 'shape %s, python int gives %s' % (a.shape, b.shape)
+        return None
+    raise KeyError(what)
+
+
+def o_hetero(case):
+    """R10: per-cell / per-user collections whose elements differ in type (python int next to float, numpy
+    scalars of several widths, list next to ndarray) give the result of the uniformly float twin"""
+    shapes, cell, _ = _mods()
+    what = case['what']
+    cls = 'hetero:' + what
+    mix = [lambda v: int(v) if float(v) == int(v) else float(v), float, np.float32, np.float64,
+           lambda v: np.int16(v) if float(v) == int(v) else np.float64(v), lambda v: np.array(v)]
+    pat = case['pattern']
+    if what == 'add_border_user':
+        spec = case['spec']
+        tol = 2e-6 * spec_scale(spec) * 1e3
+        angs = [a for a, _ in case['angles']]
+        rats = [r for _, r in case['angles']]
+        a, b = make_shape(spec), make_shape(spec)
+        b.add_border_user([float(x) for x in angs], [float(x) for x in rats])
+        a.add_border_user([mix[pat[i % len(pat)]](x) for i, x in enumerate(angs)],
+                          [mix[pat[(i + 1) % len(pat)]](x) for i, x in enumerate(rats)])
+        if not same_pts([complex(u.pos) for u in a.users], [complex(u.pos) for u in b.users], tol):
+            return cls, 'mixed element types give %s, floats give %s' % ([u.pos for u in a.users][:3], [u.pos for u in b.users][:3])
+        return None
+    if what == 'cluster':
+        n, R, ctype = case['n'], case['R'], case['type']
+        ids, nums, rats, angs = case['ids'], case['nums'], case['ratios'], case['angles']
+        a, b = cell.Cluster(R, n, cell_type=ctype), cell.Cluster(R, n, cell_type=ctype)
+        with scripted_random(case['draws']):
+            b.add_random_users(list(ids), list(nums), None, [float(x) for x in rats])
+        b.add_border_users(list(ids), [[float(y) for y in x] for x in angs], 0.5)
+        im = [[int, np.int64, np.uint8, np.int16, np.intp][pat[i % len(pat)] % 5](x) for i, x in enumerate(ids)]
+        nm = [[int, np.int32, np.uint8, np.int64][pat[(i + 2) % len(pat)] % 4](x) for i, x in enumerate(nums)]
+        rm = [[float, np.float32, np.float64, float][pat[(i + 1) % len(pat)] % 4](x) for i, x in enumerate(rats)]
+        am = []
+        for i, x in enumerate(angs):
+            m = pat[i % len(pat)] % 4
+            am.append(list(x) if m == 0 else np.array(x) if m == 1 else tuple(x) if m == 2 else np.array(x, dtype=np.float32))
+        with scripted_random(case['draws']):
+            a.add_random_users(im, nm, None, rm)
+        a.add_border_users(im, am, 0.5)
+        for x, y in zip(a, b):
+            if not same_pts([complex(u.pos) for u in x.users], [complex(u.pos) for u in y.users], 2e-6 * R * 10):
+                return cls, 'cell %s: %s with mixed element types, %s with uniform lists' % (x.id, [u.pos for u in x.users][:2], [u.pos for u in y.users][:2])
+        return None
+    raise KeyError(what)
+
+
+def o_nonmutating(case):
+    """R11: queries, representations and plots (Agg backend) leave every attribute and every later result of a
+    cell / cluster unchanged"""
+    shapes, cell, _ = _mods()
+    import matplotlib
+    matplotlib.use('Agg')
+    import matplotlib.pyplot as plt
+    what = case['what']
+    if what == 'cell':
+        obj, wrap, _ = hist_build(case['history'])
+        target = wrap if wrap is not None else obj
+        if hasattr(obj, 'add_random_user'):
+            with scripted_random(case['draws']):
+                obj.add_random_user('g', 0.2)
+        obj.fill_face_bool = True
+        obj.fill_color = 'b'
+        before = [geom_observables(obj), geom_observables(target)]
+        calls = []
+        fig, ax = plt.subplots()
+        try:
+            for name, fn in (('vertices', lambda: target.vertices), ('is_point_inside_shape', lambda: target.is_point_inside_shape(complex(target.pos) + 0.1)),
+                             ('get_border_point', lambda: target.get_border_point(33.0, 0.5)), ('calc_dist', lambda: target.calc_dist(obj)),
+                             ('repr', lambda: repr(target)), ('_get_vertex_positions', lambda: target._get_vertex_positions()),
+                             ('num_users', lambda: getattr(target, 'num_users', None)), ('users', lambda: list(getattr(target, 'users', []))),
+                             ('plot', lambda: target.plot(ax)), ('plot_border', lambda: target.plot_border(ax) if hasattr(target, 'plot_border') else None),
+                             ('height', lambda: getattr(target, 'height', None)), ('secradius', lambda: getattr(target, 'secradius', None))):
+                fn()
+                calls.append(name)
+                after = [geom_observables(obj), geom_observables(target)]
+                if after != before:
+                    return 'nonmutating:%s:%s' % (hist_kind(case['history']), name), 'calling %s changed the object' % name
+        finally:
+            plt.close(fig)
+        return None
+    if what == 'cluster':
+        n, R, rot, ctype = case['n'], case['R'], case['rot'], case['type']
+        cl = cell.Cluster(R, n, cx(case['pos']), 3, ctype, rot)
+        with scripted_random(case['draws']):
+            cl.add_random_users(None, 1, 'g', 0.2)
+        cl.add_border_users(1, 30.0, 0.5)
+        if n == 19 and ctype != 'square':
+            cl.create_wrap_around_cells(include_users_bool=True)
+        cl.fill_face_bool = True
+        before = cluster_observables(cl)
+        M0 = np.array(cl.calc_dist_all_users_to_each_cell(), copy=True)
+        fig, ax = plt.subplots()
+        try:
+            for name, fn in (('calc_dist_all_users_to_each_cell', cl.calc_dist_all_users_to_each_cell),
+                             ('calc_dist_all_users_to_each_cell_no_wrap_around', cl.calc_dist_all_users_to_each_cell_no_wrap_around),
+                             ('calc_dists_between_cells', cl.calc_dists_between_cells), ('vertices', lambda: cl.vertices),
+                             ('get_all_users', cl.get_all_users), ('repr', lambda: repr(cl)), ('iter', lambda: list(cl)),
+                             ('get_cell_by_id', lambda: cl.get_cell_by_id(1)), ('plot', lambda: cl.plot(ax)),
+                             ('plot_border', lambda: cl.plot_border(ax)), ('wrapped users', lambda: [w.users for w in cl._wrapped_cells.values()])):
+                fn()
+                after = cluster_observables(cl)
+                if after != before:
+                    return 'nonmutating:cluster:%s:%s' % (ctype, name), 'calling %s changed the cluster' % name
+                if not np.array_equal(np.asarray(cl.calc_dist_all_users_to_each_cell()), M0):
+                    return 'nonmutating:cluster:%s:%s' % (ctype, name), 'the distance matrix changed after %s' % name
+        finally:
+            plt.close(fig)
+        return None
+    raise KeyError(what)
+
+
+def o_order(case):
+    """R12: the order in which users are added to the CELLS of a cluster (and clusters of other sizes were
+    built before) is not part of the result: per-cell users, the distance matrix (rows grouped by cell) and
+    the positions are the same"""
+    shapes, cell, _ = _mods()
+    n, R, rot, ctype = case['n'], case['R'], case['rot'], case['type']
+    pos = cx(case['pos'])
+    adds = case['adds']           # [cell id, angle, ratio, colour]
+    for m in case.get('warmup', []):
+        cell.Cluster(1.0, m)      # fills the class-level cache in another order
+    res = []
+    for perm in case['orders']:
+        cl = cell.Cluster(R, n, pos, None, ctype, rot)
+        for i in perm:
+            cid, a, r, col = adds[i]
+            cl.add_border_users(cid, a, r, col)
+        res.append(cl)
+    # a permutation that keeps the per-cell order: everything is identical
+    base = res[0]
+    M0 = np.asarray(base.calc_dist_all_users_to_each_cell())
+    for k, cl in enumerate(res[1:]):
+        for x, y in zip(cl, base):
+            if [(complex(u.pos), u.marker_color) for u in x.users] != [(complex(u.pos), u.marker_color) for u in y.users]:
+                return 'order:%s:per-cell-users' % ctype, 'cell %s has other users after another insertion order' % x.id
+        M = np.asarray(cl.calc_dist_all_users_to_each_cell())
+        if M.shape != M0.shape or not np.array_equal(M, M0):
+            return 'order:%s:distance-matrix' % ctype, 'the distance matrix depends on the order the cells received their users'
+    # per-cell arguments keyed by cell: permuting ids together with their arguments
+    ids = case['ids']
+    args = case['per_cell']
+    a, b = cell.Cluster(R, n, pos, None, ctype, rot), cell.Cluster(R, n, pos, None, ctype, rot)
+    a.add_border_users(ids, [x[0] for x in args], [x[1] for x in args], [x[2] for x in args])
+    p = case['perm']
+    b.add_border_users([ids[i] for i in p], [args[i][0] for i in p], [args[i][1] for i in p], [args[i][2] for i in p])
+    for x, y in zip(a, b):
+        if sorted([(round(complex(u.pos).real / R, 9), round(complex(u.pos).imag / R, 9), u.marker_color) for u in x.users]) != \
+                sorted([(round(complex(u.pos).real / R, 9), round(complex(u.pos).imag / R, 9), u.marker_color) for u in y.users]):
+            return 'order:%s:per-cell-arguments' % ctype, 'cell %s: permuting the ids together with their arguments changes its users' % x.id
+    return None
+
+
+def o_derived(case):
+    """R13: copies, pickles, cells handed out by a cluster, wraps: derived objects equal their source and are
+    independent of it where they are copies; a wrap keeps following the cell it wraps"""
+    import copy
+    import pickle
+    shapes, cell, _ = _mods()
+    what = case['what']
+    if what == 'copy':
+        obj, wrap, _ = hist_build(case['history'])
+        src = wrap if wrap is not None else obj
+        kind = ('wrap:' if wrap is not None else '') + hist_kind(case['history'])
+        o0 = observables(src)
+        for name, dup in (('deepcopy', copy.deepcopy(src)), ('pickle', pickle.loads(pickle.dumps(src)))):
+            if observables(dup) != o0:
+                return 'derived:%s:%s:differs' % (name, kind), 'the %s differs from its source' % name
+            dup.pos = complex(dup.pos) + 3.0 * shape_size(case['history']['init'])
+            if hasattr(dup, 'add_border_user'):
+                dup.add_border_user(10.0, 0.5)
+            if wrap is None:
+                dup.rotation = 11.0
+            if observables(src) != o0:
+                return 'derived:%s:%s:not-independent' % (name, kind), 'changing the %s changed its source' % name
+            spec = {'kind': 'wrap', 'pos': c2(complex(dup.pos)), 'inner': hist_current_spec(case['history'], cell_only=True)} if wrap is not None else None
+            if wrap is None:
+                cur = hist_current_spec(case['history'])
+                cur = dict(cur)
+                cur['rot'] = 11.0
+                if cur['kind'] == 'rect':
+                    d = complex(dup.pos) - (cx(cur['first']) + cx(cur['second'])) / 2
+                    cur['first'], cur['second'] = c2(cx(cur['first']) + d), c2(cx(cur['second']) + d)
+                else:
+                    cur['pos'] = c2(complex(dup.pos))
+                spec = cur
+            if not cyc_close([complex(v) for v in np.asarray(dup.vertices)], ref_vertices(spec), TOL * spec_scale(spec)):
+                return 'derived:%s:%s:stale' % (name, kind), 'the %s does not follow its own setters' % name
+        return None
+    if what == 'cluster_cells':
+        n, R, rot, ctype = case['n'], case['R'], case['rot'], case['type']
+        cl = cell.Cluster(R, n, cx(case['pos']), None, ctype, rot)
+        if n == 19 and ctype != 'square':
+            cl.create_wrap_around_cells(include_users_bool=True)
+        c = cl.get_cell_by_id(case['id'])
+        if c is not list(cl)[case['id'] - 1]:
+            return 'derived:cluster:get_cell_by_id', 'get_cell_by_id and iteration hand out different objects'
+        with scripted_random(case['draws']):
+            c.add_random_users(2, 'k', 0.2)           # users added through the derived cell are users of the cluster
+        if cl.num_users != 2 or len(cl.get_all_users()) != 2:
+            return 'derived:cluster:users-through-cell', 'the cluster has %d users after adding 2 through its cell' % cl.num_users
+        M = np.asarray(cl.calc_dist_all_users_to_each_cell())
+        exp = np.abs(np.array([complex(u.pos) for u in c.users])[:, None] - np.array([complex(x.pos) for x in cl])[None, :])
+        if M.shape != exp.shape or np.max(np.abs(M - exp)) > 1e-9 * (R + abs(cx(case['pos']))):
+            return 'derived:cluster:distance-matrix', 'the matrix does not see the users added through the cell'
+        for w in cl._wrapped_cells.values():
+            if w._wrapped_cell is c:
+                wu = [complex(u.pos) - complex(w.pos) for u in w.users]
+                cu = [complex(u.pos) - complex(c.pos) for u in c.users]
+                if not same_pts(wu, cu, 1e-9 * R):
+                    return 'derived:cluster:wrapped-users', 'a wrapped copy of the cell does not show its users'
+        dup = pickle.loads(pickle.dumps(cl))
+        if cluster_observables(dup) != cluster_observables(cl):
+            return 'derived:pickle:cluster:differs', 'the unpickled cluster differs'
+        dup.get_cell_by_id(1).add_border_user(0.0, 0.5)
+        if cl.num_users != 2:
+            return 'derived:pickle:cluster:not-independent', 'changing the unpickled cluster changed the original'
+        return None
+    raise KeyError(what)
+
+
+o_forms_g = _guard(o_forms, lambda c: 'forms:' + c['what'])
+o_index_g = _guard(o_index, lambda c: 'index:%s:%s' % (c['what'], c['type']))
+o_hetero_g = _guard(o_hetero, lambda c: 'hetero:' + c['what'])
+o_nonmutating_g = _guard(o_nonmutating, lambda c: 'nonmutating:' + c['what'])
+o_order_g = _guard(o_order, lambda c: 'order:' + c['type'])
+o_derived_g = _guard(o_derived, lambda c: 'derived:' + c['what'])
+
+
+def queries_only(h):
+    h = dict(h)
+    h['ops'] = [op for op in h['ops'] if op[0] in 'PRTMQW']
+    return h
+
+
+def more_oracles(ctx, n):
+    """R8 - R14 on the real code"""
+    rng = ctx.rng
+    # R8
+    for kind in ('hex', 'sec3', 'square', 'rect', 'circle', 'wrap'):
+        spec = gen_spec(rng, [kind])
+        run_oracle(ctx, 'argument_forms', {'what': 'get_border_point', 'spec': spec, 'angles': gen_angles(rng, spec, 6), 'tag': 'R8:forms'},
+                   key=('r8b', kind))
+    for kind in ('hex', 'sec3', 'square', 'hexshape'):
+        for _ in range(2):
+            run_oracle(ctx, 'argument_forms', {'what': 'constructor', 'spec': gen_spec(rng, [kind]), 'tag': 'R8:constructor-vs-setter'},
+                       key=('r8c', kind, _))
+    for ctype, n_ in (('simple', 7), ('3sec', 3), ('square', 9)):
+        run_oracle(ctx, 'argument_forms', {'what': 'cluster_constructor', 'type': ctype, 'n': n_, 'R': gen_radius(rng), 'rot': gen_rot(rng),
+                                           'pos': gen_pos(rng), 'tag': 'R8:forms'}, key=('r8cc', ctype))
+    for kind in ('hex', 'sec3', 'square'):
+        for rel in ([0.2, 0.1], [0.0, 0.0], [2.0, 2.0], [-0.4, 0.3]):
+            run_oracle(ctx, 'argument_forms', {'what': 'add_user', 'spec': gen_spec(rng, [kind]), 'rel': rel, 'tag': 'R8:equivalent-entry-points'},
+                       key=('r8u', kind, repr(rel)))
+        spec = gen_spec(rng, [kind])
+        run_oracle(ctx, 'argument_forms', {'what': 'single_vs_many', 'spec': spec, 'num': rng.randint(1, 4), 'color': rng.choice([None, 'b']),
+                                           'ratio': rng.choice([0.0, 0.4]), 'draws': gen_draws(rng, 400), 'tag': 'R8:equivalent-entry-points',
+                                           'sector': rng.below(3) if kind == 'sec3' else None,
+                                           'angles': [[float(rng.randint(-12, 12) * 30), rng.choice([1.0, 0.5])] for _ in range(3)]},
+                   key=('r8s', kind))
+    for ctype, n_ in (('simple', 7), ('square', 4), ('3sec', 3)):
+        run_oracle(ctx, 'argument_forms', {'what': 'scalar_0d_len1', 'type': ctype, 'n': n_, 'R': gen_radius(rng), 'id': rng.randint(1, n_),
+                                           'num': 2, 'ratio': 0.3, 'draws': gen_draws(rng, 400), 'tag': 'R8:scalar-0d-len1'}, key=('r8z', ctype))
+    run_oracle(ctx, 'argument_forms', {'what': 'pointprocess', 'n': 5, 'rmax': 2.0, 'w': 3.0, 'h': 1.0, 'draws': gen_draws(rng, 20), 'tag': 'R8:forms'})
+    # R9
+    for t in ('int8', 'uint8', 'int16', 'uint16', 'int32', 'int64', 'intp', '0-d', 'bool'):
+        if t != 'bool':
+            run_oracle(ctx, 'index_arguments', {'what': 'sector', 'type': t, 'R': gen_radius(rng), 'rot': gen_rot(rng), 'sector': rng.below(3),
+                                                'num': 2, 'typed_num': rng.chance(0.5), 'draws': gen_draws(rng, 400), 'tag': 'R9:index-types'},
+                       key=('r9s', t))
+            run_oracle(ctx, 'index_arguments', {'what': 'num_users', 'type': t, 'type_c': 'simple', 'n': 7, 'R': 1.5, 'id': 3, 'num': 2,
+                                                'draws': gen_draws(rng, 400), 'tag': 'R9:index-types'}, key=('r9n', t))
+            run_oracle(ctx, 'index_arguments', {'what': 'num_points', 'type': t, 'n': 7, 'draws': gen_draws(rng, 20), 'tag': 'R9:index-types'},
+                       key=('r9p', t))
+        tc = rng.choice(['simple', '3sec', 'square']) if t != 'bool' else 'simple'
+        run_oracle(ctx, 'index_arguments', {'what': 'cell_id', 'type': t, 'type_c': tc,
+                                            'n': 9 if tc == 'square' else 7, 'R': 1.5, 'id': 1 if t == 'bool' else rng.randint(1, 4),
+                                            'num': 2, 'draws': gen_draws(rng, 400), 'tag': 'R9:index-types'}, key=('r9c', t))
+    for t in ('int', 'int16', 'uint16', 'int64', 'intp', '0-d'):       # ids above 256 (17 x 17 squares)
+        run_oracle(ctx, 'index_arguments', {'what': 'cell_id', 'type': t, 'type_c': 'square', 'n': 289, 'R': 1.0, 'id': rng.choice([257, 258, 289]),
+                                            'num': 1, 'draws': gen_draws(rng, 400), 'tag': 'R9:index>256'}, key=('r9big', t))
+        if ctx.tier == 'quick':
+            break
+    # R10
+    for kind in ('hex', 'sec3', 'square'):
+        spec = gen_spec(rng, [kind], 0)
+        run_oracle(ctx, 'heterogeneous', {'what': 'add_border_user', 'spec': spec, 'pattern': [rng.below(6) for _ in range(4)],
+                                          'angles': [[float(rng.randint(-12, 12) * 15), rng.choice([1.0, 0.5, 0.25])] for _ in range(5)],
+                                          'tag': 'R10:heterogeneous'}, key=('r10b', kind))
+    for ctype, n_ in (('simple', 7), ('3sec', 7), ('square', 9)):
+        k = 4
+        run_oracle(ctx, 'heterogeneous', {'what': 'cluster', 'type': ctype, 'n': n_, 'R': 2.0, 'pattern': [rng.below(8) for _ in range(5)],
+                                          'ids': [rng.randint(1, n_) for _ in range(k)], 'nums': [rng.randint(0, 2) for _ in range(k)],
+                                          'ratios': [rng.choice([0.0, 0.25, 0.5]) for _ in range(k)],
+                                          'angles': [[float(rng.randint(-12, 12) * 15) for _ in range(rng.randint(1, 3))] for _ in range(k)],
+                                          'draws': gen_draws(rng, 800), 'tag': 'R10:heterogeneous'}, key=('r10c', ctype))
+    # R11
+    for kind in ('hex', 'sec3', 'square', 'rect', 'wrap:hex', 'wrap:sec3', 'wrap:square'):
+        h = queries_only(gen_history(rng, kind, scale=0))
+        run_oracle(ctx, 'non_mutating', {'what': 'cell', 'history': h, 'draws': gen_draws(rng, 200), 'tag': 'R11:queries-and-plots'},
+                   key=('r11', kind))
+    for ctype, n_ in (('simple', 19), ('3sec', 7), ('square', 4)):
+        run_oracle(ctx, 'non_mutating', {'what': 'cluster', 'type': ctype, 'n': n_, 'R': gen_radius(rng), 'rot': gen_rot(rng), 'pos': gen_pos(rng),
+                                         'draws': gen_draws(rng, 2000), 'tag': 'R11:queries-and-plots'}, key=('r11c', ctype))
+    # R12
+    for ctype, n_ in (('simple', 7), ('3sec', 3), ('square', 9), ('simple', 19)):
+        adds = [[rng.randint(1, n_), float(rng.randint(-12, 12) * 30), rng.choice([0.5, 0.25, 0.9]), rng.choice(COLORS)] for _ in range(6)]
+        orders = [list(range(6))]
+        for _ in range(3):           # reorderings that keep the order inside every cell
+            perm = list(range(6))
+            rng.shuffle(perm)
+            percell = {}
+            for i in range(6):
+                percell.setdefault(adds[i][0], []).append(i)
+            it = {c_: iter(v) for c_, v in percell.items()}
+            orders.append([next(it[adds[i][0]]) for i in perm])
+        k = min(n_, 4)
+        ids = list(range(1, k + 1))
+        p_ = list(range(k))
+        rng.shuffle(p_)
+        run_oracle(ctx, 'insertion_order', {'type': ctype, 'n': n_, 'R': gen_radius(rng), 'rot': gen_rot(rng), 'pos': gen_pos(rng), 'adds': adds,
+                                            'orders': orders, 'warmup': [rng.choice([2, 5, 6, 13]) for _ in range(2)], 'ids': ids,
+                                            'per_cell': [[float(rng.randint(-12, 12) * 30), rng.choice([0.5, 0.25]), COLORS[i]] for i in range(k)],
+                                            'perm': p_, 'tag': 'R12:insertion-order'}, key=('r12', ctype, n_))
+    # R13
+    for kind in ('hex', 'sec3', 'square', 'rect', 'wrap:hex', 'wrap:square'):
+        h = queries_only(gen_history(rng, kind, scale=0))
+        run_oracle(ctx, 'derived_objects', {'what': 'copy', 'history': h, 'tag': 'R13:derived-objects'}, key=('r13', kind))
+    for ctype, n_ in (('simple', 19), ('3sec', 19), ('square', 9), ('simple', 7)):
+        run_oracle(ctx, 'derived_objects', {'what': 'cluster_cells', 'type': ctype, 'n': n_, 'R': gen_radius(rng), 'rot': gen_rot(rng),
+                                            'pos': gen_pos(rng), 'id': rng.randint(1, n_), 'draws': gen_draws(rng, 400),
+                                            'tag': 'R13:derived-objects'}, key=('r13c', ctype, n_))
+    # R14 counts
+    big = [257] if ctx.tier == 'quick' else [257, 258, 300]
+    for m in big:
+        spec = gen_spec(rng, [rng.choice(['hex', 'sec3', 'square'])], 0)
+        run_oracle(ctx, 'add_random_user', {'spec': spec, 'ratio': 0.2, 'draws': None, 'npseed': rng.below(2 ** 31), 'n': m, 'tag': 'R14:counts'},
+                   key=('r14u', m))
+        run_oracle(ctx, 'add_border_user', {'spec': spec, 'queries': [[float((37 * i) % 720 - 360), 0.5] for i in range(m)], 'tag': 'R14:counts'},
+                   key=('r14b', m))
+        case = {'type': 'simple', 'n': 7, 'R': 1.5, 'rot': gen_rot(rng), 'pos': gen_pos(rng), 'npseed': rng.below(2 ** 31), 'ratio': 0.2,
+                'random': [[1, m], [2, 3]], 'border': [], 'tag': 'R14:counts'}
+        run_oracle(ctx, 'calc_dist_all_users_to_each_cell', case, key=('r14d', m))
+        run_oracle(ctx, 'pointprocess', {'what': 'circle', 'n': m, 'rmax': 3.0, 'rmin': 1.0, 'draws': None, 'npseed': 3, 'tag': 'R14:counts'},
+                   key=('r14p', m))
+    run_oracle(ctx, 'pointprocess', {'what': 'rectangle', 'n': 65537, 'w': 3.0, 'h': 1.0, 'draws': None, 'npseed': 3, 'tag': 'R14:counts'})
+    for n_ in ([289] if ctx.tier == 'quick' else [289, 324]):
+        run_oracle(ctx, 'Cluster', {'type': 'square', 'n': n_, 'R': gen_radius(rng), 'rot': gen_rot(rng), 'pos': gen_pos(rng), 'tag': 'R14:counts',
+                                    'light': True}, key=('r14c', n_))
+        pc = gen_placement_case(rng, 'Cluster.add_random_users', 'none', {'ratios'})
+        pc.update(type='square', n=n_, nums=1, ratios=[0.0 if j % 2 else 0.4 for j in range(n_)], colors=None, tag='R14:counts',
+                  draws=None, npseed=5)
+        run_oracle(ctx, 'user_placement', pc, key=('r14pl', n_))
+
+
+ORACLES.update({'argument_forms': o_forms_g, 'index_arguments': o_index_g, 'heterogeneous': o_hetero_g, 'non_mutating': o_nonmutating_g,
+                'insertion_order': o_order_g, 'derived_objects': o_derived_g})
+
+
+
+def corr_more(ctx, drv, n):
+    """R8 - R14 against the model: the code is driven through another argument form / index type / mixed
+    collection / insertion order / copy / large count, the model is given the logical values"""
+    shapes, cell, pp = _mods()
+    import copy
+    import pickle
+    rng = ctx.rng
+    w = quiet()
+    try:
+        for _ in range(n):
+            # R8 + R13: keyword constructor, setter path, copy and pickle -> vertices and border points of the model
+            kind = rng.choice(['hex', 'sec3', 'square'])
+            spec = gen_spec(rng, [kind])
+            pos, rot = cx(spec['pos']), spec['rot']
+            size = spec['side'] if kind == 'square' else spec['R']
+            C = {'hex': cell.Cell, 'sec3': cell.Cell3Sec, 'square': cell.CellSquare}[kind]
+            sizekw = 'side_length' if kind == 'square' else 'radius'
+            o_set = C(0j, 1.0)
+            o_set.rotation, o_set.pos = rot, pos
+            o_set.radius = math.sqrt(2.0) * size / 2.0 if kind == 'square' else size
+            base = C(rotation=rot, cell_id=None, **{sizekw: size, 'pos': pos})
+            variants = {'keyword': base, 'setter-path': o_set, 'deepcopy': copy.deepcopy(base), 'pickle': pickle.loads(pickle.dumps(o_set))}
+            sl = spec_line(spec)
+            ang = gen_angles(rng, spec, 3)
+            out = drv.ask(['verts ' + sl] + ['border %s %s %s' % (sl, core.f2s(a), core.f2s(1.0 if r == 0 else r)) for a, r in ang])
+            tol = TOL * spec_scale(spec)
+            for name, o_ in variants.items():
+                verts = [complex(v) for v in np.asarray(o_.vertices)]
+                bps = [complex(o_.get_border_point(angle=a, ratio=None if r == 0 else r)) if name == 'keyword' else
+                       complex(o_.get_border_point(a, 1.0 if r == 0 else r)) for a, r in ang]
+                ok = pts_close(verts, fpts(out[0]), tol) and all(abs(b - fpts(m)[0]) <= tol for b, m in zip(bps, out[1:]))
+                ctx.corr('forms.' + name + '.' + kind, spec, 'match' if ok else repr(verts[:3]), 'match' if ok else repr(fpts(out[0])[:3]),
+                         key=('cforms', name, repr(spec)))
+                ctx.branch('R8:corr:' + name if name in ('keyword', 'setter-path') else 'R13:corr:' + name)
+            # R10: mixed element types in the angle / ratio lists of add_border_user
+            angs = [float(rng.randint(-12, 12) * 15) for _ in range(4)]
+            rats = [rng.choice([1.0, 0.5, 0.25]) for _ in range(4)]
+            o_ = C(rotation=rot, **{sizekw: size, 'pos': pos})
+            o_.add_border_user([int(angs[0]), angs[1], np.float32(angs[2]), np.int16(angs[3])],
+                               [int(rats[0]) if rats[0] == 1.0 else rats[0], np.float32(rats[1]), rats[2], np.float64(rats[3])])
+            m = drv.ask(['borderuser %s %s %s' % (sl, core.f2s(a), core.f2s(r)) for a, r in zip(angs, rats)])
+            users = [complex(u.pos) for u in o_.users]
+            ok = len(users) == 4 and all(abs(u - fpts(x)[0]) <= 2e-6 * (shape_size(spec) + abs(pos)) for u, x in zip(users, m))   # float32 angle
+            ctx.corr('hetero.add_border_user.' + kind, {'spec': spec, 'angles': angs, 'ratios': rats}, 'match' if ok else repr(users),
+                     'match' if ok else repr(m), key=('chet', repr(spec), repr(angs)))
+            ctx.branch('R10:corr:heterogeneous')
+        # R9 / R14: ids above 256 of several integer types in a 17 x 17 cluster, per-cell ratios
+        R = gen_radius(rng)
+        ids = [257, 289, 1, 258]
+        rats = [0.4, 0.0, 0.3, 0.2]
+        draws = [rng.uniform() for _ in range(800)]
+        cl = cell.Cluster(R, np.int16(289), cell_type='square')
+        geo = [(complex(c.pos), float(c.radius), ref_vertices(cell_spec('square', R, 0.0, complex(c.pos))), 20 * R) for c in cl]
+        case = {'n': 289, 'ids': ids, 'ids_form': 'list', 'nums': 1, 'colors': None, 'ratios': rats, 'draws': draws}
+        sim, tie = simulate_placement(case, geo)
+        if sim is not None and not tie:
+            with scripted_random(draws):
+                cl.add_random_users(cell_ids=[np.int16(257), np.intp(289), True, np.array(258)], num_users=np.uint8(1), min_dist_ratio=rats)
+            impl = sorted([(c.id - 1, complex(u.pos)) for c in cl for u in c.users], key=lambda t: t[0])
+            f = core.f2s
+            m = drv.ask(['clusterusers square 289 %s %s %s %s %s s:1 l:%s %s' % (f(R), f(0.0), f(0.0), f(0.0), ','.join(map(str, ids)),
+                                                                                ','.join(f(x) for x in rats), ','.join(f(d) for d in draws))])[0]
+            model = sorted([(int(t.split(':')[0]), fpts(t.split(':')[1])[0]) for t in m.split(';')], key=lambda t: t[0]) if ':' in m else []
+            ok = len(model) == len(impl) and all(a[0] == b[0] and abs(a[1] - b[1]) <= TOL * 20 * R for a, b in zip(impl, model))
+            ctx.corr('index.cell_ids>256', {'R': R, 'ids': ids, 'ratios': rats}, 'match' if ok else repr(impl), 'match' if ok else m[:200],
+                     key=('cidx', R))
+            ctx.branch('R9:corr:index>256')
+        cen = [complex(c.pos) for c in cell.Cluster(R, 289, cell_type='square')]
+        m = drv.ask(['cluster square 289 %s %s %s %s' % (core.f2s(R), core.f2s(0.0), core.f2s(0.0), core.f2s(0.0))])[0]
+        ok = pts_close(cen, fpts(m), TOL * 20 * R)
+        ctx.corr('counts.cluster289', {'R': R}, 'match' if ok else repr(cen[:3]), 'match' if ok else m[:100], key=('ccount', R))
+        # R12 + R14: 257 users added to the cells in a shuffled order -> the distance matrix of the model (cell by cell)
+        cl = cell.Cluster(R, 7, pos=cx(gen_pos(rng)), rotation=gen_rot(rng))
+        adds = [(rng.randint(1, 7), float(rng.randint(0, 719)), rng.choice([0.25, 0.5, 0.75])) for _ in range(257)]
+        for cid, a, r in adds:
+            cl.add_border_users(cid, a, r)
+        M = np.asarray(cl.calc_dist_all_users_to_each_cell())
+        per = {}
+        for cid, a, r in adds:
+            per.setdefault(cid, []).append(complex(cell.Cell(complex(cl.get_cell_by_id(cid).pos), R, rotation=cl.rotation).get_border_point(a, r)))
+        ordered = [u for cid in sorted(per) for u in per[cid]]
+        m = drv.ask(['distm %s %s' % (qline([c2(u) for u in ordered]), qline([c2(complex(c.pos)) for c in cl]))])[0]
+        rows = [[core.s2f(t) for t in r_.split(',')] for r_ in m.split(';')]
+        ok = M.shape == (257, 7) and all(abs(M[i, j] - rows[i][j]) <= 1e-9 * (R + rows[i][j]) for i in range(257) for j in range(7))
+        ctx.corr('order.distance_matrix', {'R': R, 'n_users': 257}, 'match' if ok else 'differs', 'match', key=('cord', R))
+        ctx.branch('R12:corr:insertion-order')
+        ctx.branch('R14:corr:counts')
+    finally:
+        w.__exit__(None, None, None)
+
+
+
 def guarded(ctx, name, fn, *args):
     """run one correspondence group; an exception of the LIBRARY in there is not an infrastructure failure: the
     correspondence is recorded as broken and the oracles / the search produce the concrete failing input"""
@@ -3369,6 +4130,7 @@ def correspondence(ctx, nshapes, nq, nusers, cluster_cases, ndist, npp, nhist):
     guarded(ctx, 'history', corr_history, drv, nhist)
     guarded(ctx, 'robust', corr_robust, drv, max(20, nhist // 4))
     guarded(ctx, 'placement', corr_placement, drv, max(20, nhist // 4))
+    guarded(ctx, 'more', corr_more, drv, max(6, nhist // 40))
     guarded(ctx, 'shapes', corr_shapes, drv, ['hex', 'hexshape', 'sec3', 'rect', 'rect', 'square', 'circle', 'wrap', 'sector'],
             nshapes, nq)
     guarded(ctx, 'users', corr_users, drv, nusers, 40)
@@ -3390,6 +4152,7 @@ def oracles(ctx, nshapes, nq, nusers, cluster_cases, ndist, npp, nhist):
         run_oracle(ctx, 'setter_history', case, key=('hist', repr(case['init']), repr(case['ops'])))
     robust_oracles(ctx, max(30, nhist // 2))
     placement_oracles(ctx, max(40, nhist // 2))
+    more_oracles(ctx, max(10, nhist // 8))
     for _ in range(3):
         run_oracle(ctx, 'CellWrap.readonly', {'wrap': gen_pos(ctx.rng), 'init': gen_spec(ctx.rng, ['hex', 'sec3', 'square'])})
     for _ in range(nshapes):
@@ -3511,7 +4274,11 @@ def check(ctx):
                              'placement:Cell.add_border_user', 'placement:Cluster.delete_all_users',
                              'placement:ids=int', 'placement:ids=list', 'placement:ids=none', 'placement:ids=array',
                              'placement:per-cell-arguments', 'placement-corr:ids=list', 'placement-corr:ids=none',
-                             'placement-corr:per-cell-ratio']
+                             'placement-corr:per-cell-ratio', 'R8:forms', 'R8:constructor-vs-setter',
+                             'R8:equivalent-entry-points', 'R8:scalar-0d-len1', 'R9:index-types', 'R9:index>256',
+                             'R10:heterogeneous', 'R11:queries-and-plots', 'R12:insertion-order', 'R13:derived-objects',
+                             'R14:counts', 'R8:corr:keyword', 'R8:corr:setter-path', 'R13:corr:deepcopy', 'R10:corr:heterogeneous',
+                             'R9:corr:index>256', 'R12:corr:insertion-order', 'R14:corr:counts', 'R11:queries-in-history']
     cases = cluster_cases_for(ctx, nrot)
     try:
         correspondence(ctx, nshapes, nq, nusers, cases, ndist, npp, nhist)
